@@ -28,9 +28,12 @@ int main(void)
 #endif
 #ifndef ENCODE_ONLY
   l3_take_layout(e1);
-  struct S_class_2estd_3a_3a__cxx11_3a_3abasic_string *s = vf_mkstring(e1, (uint32_t)n1);
-  l3_in_base = vf_string_data(s);
-  MSG *d = vf_factory(s);
+  /* the input string of the factory is a std::string that owns the encoder's bytes in place (heap representation {data, size, capacity}):
+     copying 100+ bytes through the string model's constant-capacity buffers would only cost symbolic-execution time */
+  static struct S_class_2estd_3a_3a__cxx11_3a_3abasic_string in; VS_P(&in) = e1; VS_N(&in) = n1; VS_CAP(&in) = n1;
+  VF_ASSERT(e1[n1] == 0, "C01: the encoder terminates its output");
+  l3_in_base = e1;
+  MSG *d = vf_factory(&in);
   l3_in_base = 0; l3_lastval = 0;
   EXC_OK("C01: the factory accepts the bytes the encoder produced");
   VF_ASSERT(d != 0, "C01: the factory returns a message");
